@@ -6,17 +6,79 @@ package nasConvert
 // Functions of a property's scope without a block here are checked with the default thin contract
 // (requires true, ensures true): safety and termination only.
 
+// ---- shared macros ----
+// HexCh(n): lower-case hexadecimal character of the nibble n; HexV(c): value of a hexadecimal character;
+// D(c): value of a decimal digit character.
+
+//@ define HexCh(n) := ite((n) < 10, 48 + (n), 87 + (n))
+//@ define HexV(c) := ite((c) <= 57, (c) - 48, ite((c) >= 97, (c) - 87, (c) - 55))
+//@ define IsDig(c) := ((c) >= 48 && (c) <= 57)
+//@ define IsHex(c) := (((c) >= 48 && (c) <= 57) || ((c) >= 97 && (c) <= 102) || ((c) >= 65 && (c) <= 70))
+//@ define D(c) := ((c) - 48)
+//@ define AllHex6(s, o) := (IsHex(s[o]) && IsHex(s[o+1]) && IsHex(s[o+2]) && IsHex(s[o+3]) && IsHex(s[o+4]) && IsHex(s[o+5]))
+//@ define HexOf(s, o, b) := (s[o] == HexCh((b) >> 4) && s[o+1] == HexCh((b) & 15))
+
 // ---- C14: helpers that interpret UE-supplied contents never panic or hang ----
 
+// SUCI text (C12), IMSI format: "suci-0-<mcc>-<mnc>-<routing indicator>-<protection scheme>-<key id>-<scheme output>"
+// (TS 23.003 2.2B, TS 24.501 9.11.3.4): MCC/MNC digits of octets 2..4, routing indicator = digits of octets 5..6 up to
+// the first filler 1111, protection scheme in hexadecimal and key identifier in decimal without leading zeros, scheme
+// output = MSIN digits (null scheme; a trailing filler is dropped) or the octets in hexadecimal.
+// SuML/SuRL/SuPL/SuHL/SuSL: lengths of the five variable parts; SuOR/SuOP/SuOH/SuOS: their offsets in the text.
+//@ define SuML(b) := ite((b[2] >> 4) == 15, 2, 3)
+//@ define SuRL(b) := ite((b[4] & 15) == 15, 0, ite((b[4] >> 4) == 15, 1, ite((b[5] & 15) == 15, 2, ite((b[5] >> 4) == 15, 3, 4))))
+//@ define SuPL(b) := ite(b[6] < 16, 1, 2)
+//@ define SuHL(b) := ite(b[7] < 10, 1, ite(b[7] < 100, 2, 3))
+//@ define SuSL(b) := ite(b[6] == 0, 2*(len(b) - 8) - ite((b[len(b)-1] >> 4) == 15, 1, 0), 2*(len(b) - 8))
+//@ define SuOR(b) := (12 + SuML(b))
+//@ define SuOP(b) := (13 + SuML(b) + SuRL(b))
+//@ define SuOH(b) := (14 + SuML(b) + SuRL(b) + SuPL(b))
+//@ define SuOS(b) := (15 + SuML(b) + SuRL(b) + SuPL(b) + SuHL(b))
+//@ define SuRNib(b, j) := ite((j) == 0, b[4] & 15, ite((j) == 1, b[4] >> 4, ite((j) == 2, b[5] & 15, b[5] >> 4)))
+//@ define SuSNib(b, j) := ite(((j) & 1 == 0) == (b[6] == 0), b[8 + ((j) >> 1)] & 15, b[8 + ((j) >> 1)] >> 4)
+//@ define SuImsi(b) := (len(b) >= 9 && (b[0] >> 4) != 1)
 //@ func SuciToStringWithError(buf) (suci, plmnId, err)
+//@   assigns nothing
 //@   loop 0 invariant 8 <= i && i <= len(buf) && len(msinBytes) == i - 8
+//@   loop 0 invariant forall(k, 0, i - 8, msinBytes[k] == (buf[8+k] << 4) | (buf[8+k] >> 4))
 //@   loop 0 decreases len(buf) - i
+//@   ensures implies(len(buf) < 1, err != nil)
+//@   ensures implies(len(buf) >= 1 && len(buf) < 9 && (buf[0] >> 4) != 1, err != nil)
+//@   ensures implies(SuImsi(buf), err == nil && len(suci) == SuOS(buf) + SuSL(buf) && len(plmnId) == 3 + SuML(buf))
+//@   ensures implies(SuImsi(buf), suci[0] == 's' && suci[1] == 'u' && suci[2] == 'c' && suci[3] == 'i' && suci[4] == '-' && suci[5] == '0' && suci[6] == '-')
+//@   ensures implies(SuImsi(buf), suci[7] == HexCh(buf[1] & 15) && suci[8] == HexCh(buf[1] >> 4) && suci[9] == HexCh(buf[2] & 15) && suci[10] == '-')
+//@   ensures implies(SuImsi(buf), suci[11] == HexCh(buf[3] & 15) && suci[12] == HexCh(buf[3] >> 4) && suci[11 + SuML(buf)] == '-')
+//@   ensures implies(SuImsi(buf) && SuML(buf) == 3, suci[13] == HexCh(buf[2] >> 4))
+//@   ensures implies(SuImsi(buf), forall(j, 0, SuRL(buf), suci[SuOR(buf) + j] == HexCh(SuRNib(buf, j))) && suci[SuOR(buf) + SuRL(buf)] == '-')
+//@   ensures implies(SuImsi(buf) && buf[6] < 16, suci[SuOP(buf)] == HexCh(buf[6]))
+//@   ensures implies(SuImsi(buf) && buf[6] >= 16, suci[SuOP(buf)] == HexCh(buf[6] >> 4) && suci[SuOP(buf) + 1] == HexCh(buf[6] & 15))
+//@   ensures implies(SuImsi(buf), suci[SuOP(buf) + SuPL(buf)] == '-' && suci[SuOH(buf) + SuHL(buf)] == '-')
+//@   ensures implies(SuImsi(buf) && buf[7] < 10, suci[SuOH(buf)] == 48 + buf[7])
+//@   ensures implies(SuImsi(buf) && buf[7] >= 10 && buf[7] < 100, suci[SuOH(buf)] == 48 + buf[7] / 10 && suci[SuOH(buf) + 1] == 48 + buf[7] % 10)
+//@   ensures implies(SuImsi(buf) && buf[7] >= 100, suci[SuOH(buf)] == 48 + buf[7] / 100 && suci[SuOH(buf) + 1] == 48 + (buf[7] / 10) % 10 && suci[SuOH(buf) + 2] == 48 + buf[7] % 10)
+//@   ensures implies(SuImsi(buf), forall(j, 0, SuSL(buf), suci[SuOS(buf) + j] == HexCh(SuSNib(buf, j))))
+//@   ensures implies(SuImsi(buf), plmnId[0] == suci[7] && plmnId[1] == suci[8] && plmnId[2] == suci[9] && plmnId[3] == suci[11] && plmnId[4] == suci[12])
+//@   ensures implies(SuImsi(buf) && SuML(buf) == 3, plmnId[5] == suci[13])
 //@ end
 
+// PEI text (C12): "imei-" / "imeisv-" followed by the identity digits of 9.11.3.4: digit 1 = bits 8..5 of octet 1,
+// digit 2k = bits 4..1 and digit 2k+1 = bits 8..5 of octet k+1; the odd/even indication bit says whether the last
+// half octet is a digit.
+//@ define PeiP(buf) := ite(buf[0] & 7 == 3, 5, 7)
+//@ define PeiN(buf) := (2*len(buf) - 1 - ite(buf[0] & 8 == 0, 1, 0))
+//@ define PeiNib(buf, j) := ite((j) & 1 == 0, buf[(j) >> 1] >> 4, buf[((j) + 1) >> 1] & 15)
 //@ func PeiToStringWithError(buf) (s, err)
+//@   assigns nothing
 //@   loop 0 invariant -1 <= rangeindex && rangeindex <= len(buf) - 2
 //@   loop 0 invariant len(tmpBytes) == rangeindex + 2
+//@   loop 0 invariant forall(k, 0, rangeindex + 1, tmpBytes[k] == (buf[k] & 0xf0) | (buf[k+1] & 0x0f))
+//@   loop 0 invariant tmpBytes[rangeindex+1] == buf[rangeindex+1] & 0xf0
 //@   loop 0 decreases len(buf) - rangeindex
+//@   ensures implies(len(buf) < 1, err != nil)
+//@   ensures implies(len(buf) >= 1, err == nil && len(s) == PeiP(buf) + PeiN(buf))
+//@   ensures implies(len(buf) >= 1 && buf[0] & 7 == 3, s[0] == 'i' && s[1] == 'm' && s[2] == 'e' && s[3] == 'i' && s[4] == '-')
+//@   ensures implies(len(buf) >= 1 && buf[0] & 7 != 3, s[0] == 'i' && s[1] == 'm' && s[2] == 'e' && s[3] == 'i' && s[4] == 's' && s[5] == 'v' && s[6] == '-')
+//@   ensures implies(len(buf) >= 1, forall(j, 0, PeiN(buf), s[PeiP(buf) + j] == HexCh(PeiNib(buf, j))))
 //@ end
 
 //@ func RequestedNssaiToModels(nasNssai) (r, err)
@@ -101,17 +163,6 @@ package nasConvert
 //@ end
 
 // ---- C12: identities between wire octets and text (TS 23.003 2.2, 2.10; TS 24.501 9.11.3.4) ----
-// HexCh(n): lower-case hexadecimal character of the nibble n; HexV(c): value of a hexadecimal character;
-// D(c): value of a decimal digit character.
-
-//@ define HexCh(n) := ite((n) < 10, 48 + (n), 87 + (n))
-//@ define HexV(c) := ite((c) <= 57, (c) - 48, ite((c) >= 97, (c) - 87, (c) - 55))
-//@ define IsDig(c) := ((c) >= 48 && (c) <= 57)
-//@ define IsHex(c) := (((c) >= 48 && (c) <= 57) || ((c) >= 97 && (c) <= 102) || ((c) >= 65 && (c) <= 70))
-//@ define D(c) := ((c) - 48)
-//@ define AllHex6(s, o) := (IsHex(s[o]) && IsHex(s[o+1]) && IsHex(s[o+2]) && IsHex(s[o+3]) && IsHex(s[o+4]) && IsHex(s[o+5]))
-//@ define HexOf(s, o, b) := (s[o] == HexCh((b) >> 4) && s[o+1] == HexCh((b) & 15))
-
 // AMF identifier = region (8 bits) || set (10 bits) || pointer (6 bits), as 6 lower-case hexadecimal characters.
 //@ func AmfIdToModels(amfRegionId, amfSetId, amfPointer) (amfId)
 //@   ensures len(amfId) == 6
@@ -152,4 +203,83 @@ package nasConvert
 //@   ensures r[0] == (D(plmnID.Mcc[1]) << 4) | D(plmnID.Mcc[0])
 //@   ensures r[1] == (ite(len(plmnID.Mnc) == 3, D(plmnID.Mnc[2]), 15) << 4) | D(plmnID.Mcc[2])
 //@   ensures r[2] == (D(plmnID.Mnc[1]) << 4) | D(plmnID.Mnc[0])
+//@ end
+
+// 5G-GUTI text = MCC MNC (5 or 6 digits) || AMF identifier (6 hex) || 5G-TMSI (8 hex); wire = 11 octets of 9.11.3.4.
+//@ define GP(buf) := ite((buf[2] >> 4) == 15, 5, 6)
+//@ func GutiToStringWithError(buf) (guami, guti, err)
+//@   lencase buf 11
+//@   assigns nothing
+//@   ensures implies(len(buf) != 11, err != nil)
+//@   ensures implies(len(buf) == 11, err == nil && guami.PlmnId != nil && len(guti) == GP(buf) + 14)
+//@   ensures implies(len(buf) == 11, guti[0] == HexCh(buf[1] & 15) && guti[1] == HexCh(buf[1] >> 4) && guti[2] == HexCh(buf[2] & 15) && guti[3] == HexCh(buf[3] & 15) && guti[4] == HexCh(buf[3] >> 4))
+//@   ensures implies(len(buf) == 11 && (buf[2] >> 4) != 15, guti[5] == HexCh(buf[2] >> 4))
+//@   ensures implies(len(buf) == 11, forall(k, 0, 7, HexOf(guti, GP(buf) + 2*k, buf[4+k])))
+//@   ensures implies(len(buf) == 11, len(guami.PlmnId.Mcc) == 3 && len(guami.PlmnId.Mnc) == GP(buf) - 3 && len(guami.AmfId) == 6)
+//@   ensures implies(len(buf) == 11, forall(j, 0, 3, guami.PlmnId.Mcc[j] == guti[j]))
+//@   ensures implies(len(buf) == 11, forall(j, 0, GP(buf) - 3, guami.PlmnId.Mnc[j] == guti[3+j]))
+//@   ensures implies(len(buf) == 11, forall(j, 0, 6, guami.AmfId[j] == guti[GP(buf)+j]))
+//@ end
+
+//@ define Dig5(s) := (IsDig(s[0]) && IsDig(s[1]) && IsDig(s[2]) && IsDig(s[3]) && IsDig(s[4]))
+//@ define GutiOK19(s) := (Dig5(s) && AllHex6(s, 5) && AllHex6(s, 11) && IsHex(s[17]) && IsHex(s[18]))
+//@ define GutiOK20(s) := (Dig5(s) && IsDig(s[5]) && AllHex6(s, 6) && AllHex6(s, 12) && IsHex(s[18]) && IsHex(s[19]))
+//@ define GutiHead(g, s) := (g.Len == 11 && g.Octet[0] == 0xf2 && g.Octet[1] == (D(s[1]) << 4) | D(s[0]) && g.Octet[3] == (D(s[4]) << 4) | D(s[3]))
+//@ func GutiToNasWithError(guti) (g, err)
+//@   lencase guti 19 20
+//@   assigns nothing
+//@   ensures implies(len(guti) != 19 && len(guti) != 20, err != nil)
+//@   ensures implies(len(guti) == 19 && !GutiOK19(guti), err != nil)
+//@   ensures implies(len(guti) == 20 && !GutiOK20(guti), err != nil)
+//@   ensures implies(len(guti) == 19 && GutiOK19(guti), err == nil && GutiHead(g, guti) && g.Octet[2] == 0xf0 | D(guti[2]))
+//@   ensures implies(len(guti) == 19 && GutiOK19(guti), forall(k, 0, 7, g.Octet[4+k] == (HexV(guti[5+2*k]) << 4) | HexV(guti[6+2*k])))
+//@   ensures implies(len(guti) == 20 && GutiOK20(guti), err == nil && GutiHead(g, guti) && g.Octet[2] == (D(guti[5]) << 4) | D(guti[2]))
+//@   ensures implies(len(guti) == 20 && GutiOK20(guti), forall(k, 0, 7, g.Octet[4+k] == (HexV(guti[6+2*k]) << 4) | HexV(guti[7+2*k])))
+//@ end
+
+// ---- C12 lemmas (functions of verif_lemmas.go) ----
+//@ func verifLemmaAmfIdRoundTrip(region, set, pointer) (r, s, p, err)
+//@   ensures err == nil && r == region && s == set & 0x3ff && p == pointer & 0x3f
+//@ end
+
+//@ define IsLowHex(c) := (((c) >= 48 && (c) <= 57) || ((c) >= 97 && (c) <= 102))
+//@ func verifLemmaAmfIdTextRoundTrip(amfId) (s, err)
+//@   lencase amfId 6
+//@   ensures implies(len(amfId) == 6 && forall(i, 0, 6, IsLowHex(amfId[i])), err == nil && len(s) == 6 && forall(j, 0, 6, s[j] == amfId[j]))
+//@   ensures implies(len(amfId) != 6, err != nil)
+//@ end
+
+//@ func verifLemmaPlmnTextRoundTrip(plmnID) (s)
+//@   lencase plmnID.Mcc 3
+//@   lencase plmnID.Mnc 2 3
+//@   lenonly
+//@   requires len(plmnID.Mcc) == 3 && (len(plmnID.Mnc) == 2 || len(plmnID.Mnc) == 3)
+//@   requires IsDig(plmnID.Mcc[0]) && IsDig(plmnID.Mcc[1]) && IsDig(plmnID.Mcc[2]) && IsDig(plmnID.Mnc[0]) && IsDig(plmnID.Mnc[1])
+//@   requires implies(len(plmnID.Mnc) == 3, IsDig(plmnID.Mnc[2]))
+//@   ensures len(s) == 3 + len(plmnID.Mnc)
+//@   ensures forall(j, 0, 3, s[j] == plmnID.Mcc[j]) && forall(j, 0, len(plmnID.Mnc), s[3+j] == plmnID.Mnc[j])
+//@ end
+
+//@ define Nib9(x) := ((x) <= 9)
+//@ func verifLemmaPlmnWireRoundTrip(nasBuf) (r)
+//@   requires len(nasBuf) == 3
+//@   requires Nib9(nasBuf[0] & 15) && Nib9(nasBuf[0] >> 4) && Nib9(nasBuf[1] & 15) && Nib9(nasBuf[2] & 15) && Nib9(nasBuf[2] >> 4)
+//@   requires Nib9(nasBuf[1] >> 4) || (nasBuf[1] >> 4) == 15
+//@   ensures len(r) == 3 && r[0] == nasBuf[0] && r[1] == nasBuf[1] && r[2] == nasBuf[2]
+//@ end
+
+//@ func verifLemmaGutiWireRoundTrip(buf) (g, err)
+//@   lencase buf 11
+//@   lenonly
+//@   requires len(buf) == 11 && buf[0] == 0xf2
+//@   requires Nib9(buf[1] & 15) && Nib9(buf[1] >> 4) && Nib9(buf[2] & 15) && Nib9(buf[3] & 15) && Nib9(buf[3] >> 4)
+//@   requires Nib9(buf[2] >> 4) || (buf[2] >> 4) == 15
+//@   ensures err == nil && g.Len == 11 && forall(k, 0, 11, g.Octet[k] == buf[k])
+//@ end
+
+//@ func verifLemmaGutiTextRoundTrip(guti) (s, err)
+//@   lencase guti 19 20
+//@   ensures implies(len(guti) == 19 && Dig5(guti) && forall(i, 5, 19, IsLowHex(guti[i])), err == nil && len(s) == 19 && forall(j, 0, 19, s[j] == guti[j]))
+//@   ensures implies(len(guti) == 20 && Dig5(guti) && IsDig(guti[5]) && forall(i, 6, 20, IsLowHex(guti[i])), err == nil && len(s) == 20 && forall(j, 0, 20, s[j] == guti[j]))
+//@   ensures implies(len(guti) != 19 && len(guti) != 20, err != nil)
 //@ end
